@@ -453,13 +453,165 @@ theorem gffIndexFrom_cons (i : Nat) (l : Str) (ls : List Str) :
       | .fasta d => ⟨[], [(d, i)], true⟩
       | .dir d => { gffIndexFrom (i + 1) ls with directives := (d, i) :: (gffIndexFrom (i + 1) ls).directives }
       | .entry => { gffIndexFrom (i + 1) ls with entries := i :: (gffIndexFrom (i + 1) ls).entries } := by
-  rw [gffIndexFrom]
-  unfold gffKind
-  split
-  · rfl
-  · rfl
-  · split <;> simp_all
-  · sorry
-  · sorry
+  cases l with
+  | nil => simp [gffIndexFrom, gffKind]
+  | cons c t =>
+    by_cases h1 : c = ' '
+    · subst h1; simp [gffIndexFrom, gffKind]
+    · by_cases h2 : c = '#'
+      · subst h2
+        cases t with
+        | nil => simp [gffIndexFrom, gffKind]
+        | cons c2 t2 =>
+          by_cases h3 : c2 = '#'
+          · subst h3
+            simp only [gffIndexFrom, gffKind]
+            split <;> rfl
+          · simp [gffIndexFrom, gffKind, h3]
+      · simp [gffIndexFrom, gffKind, h1, h2]
+
+theorem gffKind_entry (l : Str) (h : IsEntryLine l) : gffKind l = .entry := by
+  obtain ⟨c, cs, rfl, h1, h2⟩ := h
+  simp [gffKind, h1, h2]
+
+theorem gffIndexFrom_append (b : List Str) : ∀ (a : List Str) (i : Nat),
+    (gffIndexFrom i a).hasFasta = false →
+    gffIndexFrom i (a ++ b) =
+      ⟨(gffIndexFrom i a).entries ++ (gffIndexFrom (i + a.length) b).entries,
+       (gffIndexFrom i a).directives ++ (gffIndexFrom (i + a.length) b).directives,
+       (gffIndexFrom (i + a.length) b).hasFasta⟩ := by
+  intro a
+  induction a with
+  | nil => intro i _; simp [gffIndexFrom]
+  | cons l ls ih =>
+    intro i h
+    have hlen : i + (l :: ls).length = i + 1 + ls.length := by simp; omega
+    rw [List.cons_append, gffIndexFrom_cons, hlen]
+    rw [gffIndexFrom_cons] at h
+    rw [gffIndexFrom_cons i l ls]
+    cases hk : gffKind l <;> simp only [hk] at h ⊢
+    · exact ih _ h
+    · cases h
+    · rw [ih _ h]; simp
+    · rw [ih _ h]; simp
+
+theorem gffIndexFrom_entry_single (n : Nat) (line : Str) (hl : IsEntryLine line) :
+    gffIndexFrom n [line] = ⟨[n], [], false⟩ := by
+  rw [gffIndexFrom_cons, gffKind_entry line hl]; rfl
+
+theorem gff_append_inv (g g' : Gff) (line : Str) (hinv : g.idx = gffIndex g.lines) (hl : IsEntryLine line)
+    (h : gffAppend g line = .ok g') : g'.idx = gffIndex g'.lines := by
+  unfold gffAppend at h
+  split at h
+  · cases h
+  · rename_i hf
+    injection h with h
+    subst h
+    simp only [Bool.not_eq_true] at hf
+    rw [hinv] at hf ⊢
+    unfold gffIndex at hf ⊢
+    rw [gffIndexFrom_append _ _ 0 hf, gffIndexFrom_entry_single _ line hl]
+    simp [hf]
+
+theorem gff_pyIndex_mem {α : Type} (l : List α) (i : Int) (x : α) (h : pyIndex l i = .ok x) : x ∈ l := by
+  unfold pyIndex at h
+  simp only at h
+  split at h
+  · cases h
+  · split at h
+    · rename_i hx
+      injection h with h
+      subst h
+      exact List.mem_of_getElem? hx
+    · cases h
+
+theorem gff_insert_inv (g g' : Gff) (i : Int) (line : Str) (hinv : g.idx = gffIndex g.lines)
+    (hl : IsEntryLine line) (h : gffInsert g i line = .ok g') : g'.idx = gffIndex g'.lines := by
+  unfold gffInsert at h
+  split at h
+  · exact gff_append_inv g g' line hinv hl h
+  · split at h
+    · cases h
+    · injection h with h
+      subst h
+      rfl
+
+theorem gff_del_inv (g g' : Gff) (i : Int) (h : gffDel g i = .ok g') : g'.idx = gffIndex g'.lines := by
+  unfold gffDel at h
+  split at h
+  · cases h
+  · injection h with h
+    subst h
+    rfl
+
+theorem gff_append_directive_inv (g g' : Gff) (d text : Str) (hinv : g.idx = gffIndex g.lines)
+    (hnf : g.idx.hasFasta = false) (htext : text ≠ "FASTA".toList)
+    (h : gffAppendDirective g d text = .ok g') : g'.idx = gffIndex g'.lines := by
+  unfold gffAppendDirective at h
+  split at h
+  · cases h
+  · injection h with h
+    subst h
+    rw [hinv] at hnf ⊢
+    unfold gffIndex at hnf ⊢
+    have hk : gffKind ('#' :: '#' :: text) = .dir text := by simp [gffKind, htext]
+    rw [gffIndexFrom_append _ _ 0 hnf, gffIndexFrom_cons, hk]
+    simp [gffIndexFrom, hnf]
+
+theorem gffIndexFrom_entries_ge : ∀ (ls : List Str) (i : Nat), ∀ k ∈ (gffIndexFrom i ls).entries, i ≤ k := by
+  intro ls
+  induction ls with
+  | nil => intro i k hk; simp [gffIndexFrom] at hk
+  | cons l ls ih =>
+    intro i k hk
+    rw [gffIndexFrom_cons] at hk
+    cases hkd : gffKind l <;> simp only [hkd] at hk
+    · have := ih _ k hk; omega
+    · cases hk
+    · have := ih _ k hk; omega
+    · rcases List.mem_cons.mp hk with rfl | hk
+      · omega
+      · have := ih _ k hk; omega
+
+theorem gffIndexFrom_set (line : Str) (hl : IsEntryLine line) : ∀ (ls : List Str) (i k : Nat),
+    (i + k) ∈ (gffIndexFrom i ls).entries → gffIndexFrom i (ls.set k line) = gffIndexFrom i ls := by
+  intro ls
+  induction ls with
+  | nil => intro i k hk; simp [gffIndexFrom] at hk
+  | cons l ls ih =>
+    intro i k hk
+    cases k with
+    | zero =>
+      rw [List.set_cons_zero, gffIndexFrom_cons, gffKind_entry line hl]
+      rw [gffIndexFrom_cons] at hk ⊢
+      cases hkd : gffKind l <;> simp only [hkd] at hk ⊢
+      · have := gffIndexFrom_entries_ge ls (i + 1) _ hk; omega
+      · cases hk
+      · have := gffIndexFrom_entries_ge ls (i + 1) _ hk; omega
+    | succ k =>
+      have he : i + (k + 1) = i + 1 + k := by omega
+      rw [List.set_cons_succ, gffIndexFrom_cons, gffIndexFrom_cons i l ls]
+      rw [gffIndexFrom_cons, he] at hk
+      cases hkd : gffKind l <;> simp only [hkd] at hk ⊢
+      · exact ih _ _ hk
+      · cases hk
+      · rw [ih _ _ hk]
+      · rcases List.mem_cons.mp hk with h | hk
+        · omega
+        · rw [ih _ _ hk]
+
+theorem gff_set_inv (g g' : Gff) (i : Int) (line : Str) (hinv : g.idx = gffIndex g.lines)
+    (hnf : g.idx.hasFasta = false) (hl : IsEntryLine line)
+    (h : gffSet g i line = .ok g') : g'.idx = gffIndex g'.lines := by
+  unfold gffSet at h
+  split at h
+  · cases h
+  · rename_i li hli
+    injection h with h
+    subst h
+    have hm := gff_pyIndex_mem _ _ _ hli
+    rw [hinv] at hm ⊢
+    unfold gffIndex at hm ⊢
+    exact (gffIndexFrom_set line hl g.lines 0 li (by simpa using hm)).symm
 
 end BiotiteModel.C12
